@@ -71,7 +71,11 @@ var ends = []struct{ name, text string }{{"newline", "\n"}, {"none", ""}, {"seve
 func buildCases(ctx *core.Ctx) (valid []c05.Input, cases []Case) {
 	files := c05.GeneratedFiles(ctx.Pick(60, 900), ctx.Seed)
 	for fi, vf := range files {
-		name := fmt.Sprintf("pkg%d/file_%d.soy", fi%7, fi)
+		// the name is a label chosen by the caller: it must come back exactly as
+		// given, whatever it looks like as a path
+		nameForms := []string{"pkg%[1]d/file_%[2]d.soy", "./views/file_%[2]d.soy", "views//file_%[2]d.soy", "views/shared/../file_%[2]d.soy", "/abs/dir/file_%[2]d.soy",
+			"file_%[2]d.soy/", "..\\win\\file_%[2]d.soy", "sp ace/file_%[2]d.soy", "été/file_%[2]d.soy", "a/./b/file_%[2]d.soy", "file_%[2]d", "%%41/file_%[2]d.soy"}
+		name := fmt.Sprintf(nameForms[fi%len(nameForms)], fi%7, fi)
 		for _, eol := range eols {
 			for _, e := range ends {
 				v := c05.FileInput("c19/valid-"+eol+"-"+e.name, withEOL(strings.Join(vf.Lines, "\n")+e.text, eol))
